@@ -154,6 +154,7 @@ def eval_vdiff(triples, tier, rng):
 import fam_sets as FS
 import fam_sat as FT
 import fam_vparse as FV
+import fam_nopanic as FN
 CLASSIFIERS['vparse_accept'] = lambda cls, f: f.get('kind') == 'vparse-loose-accept'
 CLASSIFIERS['vparse_roundtrip'] = lambda cls, f: f.get('kind') == 'vparse-rt-hyphenless-maxlen'
 
@@ -206,6 +207,14 @@ PROPERTIES = {
         'families': [{'name': 'tuple', 'gen': FV.gen_tuple, 'eval': FV.eval_tuple}],
         'rule': 'tuple family: the ten From impls on boundary-dense grids and random values; non-trivial = conversions with a component above 255 (beyond the narrowest type)',
         'explanation': 'theorems: for 0 <= a,b,c <= MAX_SAFE_INTEGER (d < 2^64) the cast is the identity, the value prints as the dotted string and the dotted string parses to it',
+    },
+    'C06': {
+        'families': [{'name': 'nopanic', 'gen': FN.gen_nopanic, 'eval': FN.eval_nopanic}],
+        'panic_is_failure': True,
+        'rule': 'nopanic family, debug build under catch_unwind; non-trivial = parses that succeed and operations whose operands both parsed; a panic anywhere is a failure with the case as replay; '
+                'parse time is measured at 10^4 and 10^5 bytes (thorough: 10^6) on fifteen adversarial shapes in a release build',
+        'explanation': 'theorems: both parsers return Ok or Err and location() of every error is Ok; the parser loops never exhaust their fuel; reachable ranges are well formed with components <= MAX+1; '
+                       'on well-formed ranges difference/satisfies/Display reach no panic arm and results are well formed again; min_version stays below 2^64',
     },
     'C07': {
         'families': [{'name': 'setops-isect', 'gen': FS.gen_setops(['isect']), 'eval': FS.eval_isect}],
